@@ -366,6 +366,25 @@ pub fn fnv_colliding_task(rng: &mut Rng) -> (TaskSpec, Vec<Item>) {
     (TaskSpec { front: fr, registry: geometry(rng), ops, fin: fin(rng) }, items)
 }
 
+/// Put a common prefix in front of every key of a call history.
+pub fn lengthen(ops: &mut Vec<Op>, prefix: &[u8]) {
+    let f = |k: &Vec<u8>| -> Vec<u8> {
+        let mut x = prefix.to_vec();
+        x.extend_from_slice(k);
+        x
+    };
+    for o in ops.iter_mut() {
+        match o {
+            Op::Ins(k, _) | Op::Add(k) => *k = f(k),
+            Op::ExtIter(it) | Op::ExtStream(it, _) => {
+                for (k, _) in it.iter_mut() {
+                    *k = f(k);
+                }
+            }
+        }
+    }
+}
+
 /// Benign acceptance shape (nothing may fail).
 pub fn benign_shape(rng: &mut Rng) -> Shape {
     match rng.below(8) {
